@@ -86,6 +86,8 @@ type Chain struct {
 
 	// Previous selects the emulated previous release when the app is (re)constructed.
 	Previous bool
+	// Node holds the node-local start-up options of this instance.
+	Node NodeOpts
 	// ReopenDB, when set, re-opens the on-disk database on every Reopen.
 	ReopenDB func() (dbm.DB, error)
 
@@ -111,14 +113,23 @@ var appBuildMu sync.Mutex
 // that a load failure is an error rather than os.Exit).
 func NewApp(db dbm.DB, home string) (*app.App, error) { return NewAppBinary(db, home, false) }
 
+// NodeOpts are node-local start-up options (flags / app.toml entries an operator chooses):
+// none of them may influence consensus state or results.
+type NodeOpts map[string]interface{}
+
 // NewAppBinary constructs the application; with previous=true it emulates the previous
 // release: the same code with the newest upgrade descriptor (and hence its handler) absent.
-func NewAppBinary(db dbm.DB, home string, previous bool) (a *app.App, err error) {
+func NewAppBinary(db dbm.DB, home string, previous bool, node ...NodeOpts) (a *app.App, err error) {
 	Setup()
 	if home == "" {
 		home = defaultHome()
 	}
 	opts := sims.AppOptionsMap{flags.FlagHome: home}
+	for _, n := range node {
+		for k, v := range n {
+			opts[k] = v
+		}
+	}
 	appBuildMu.Lock()
 	saved := app.Upgrades
 	// whatever the constructor does (including a panic under a changed tree), the descriptor
@@ -188,27 +199,36 @@ type GenesisOptions struct {
 	Balance  sdk.Coins // per account
 	// Previous builds the chain on the emulated previous release.
 	Previous bool
+	// Node: node-local start-up options of the instance.
+	Node NodeOpts
 	// Mutate may edit the module genesis map (e.g. to inject custom-module state).
 	Mutate func(cdcJSON func(interface{}) []byte, gs map[string]json.RawMessage)
 }
 
 // DefaultBalance funds every account in three denominations.
 func DefaultBalance() sdk.Coins {
-	return sdk.NewCoins(
+	many := sdk.NewCoins()
+	for i := 0; i < ManyDenoms; i++ {
+		many = many.Add(sdk.NewInt64Coin(fmt.Sprintf("v%02d", i), 1_000_000_000))
+	}
+	return many.Add(sdk.NewCoins(
 		sdk.NewInt64Coin(FeeDenom, 1_000_000_000_000),
 		sdk.NewInt64Coin(BondDenom, 1_000_000_000_000),
 		sdk.NewInt64Coin(ThirdDenom, 1_000_000_000),
 		sdk.NewCoin(HugeDenom, sdk.NewIntFromUint64(1_000_000_000_000_000_000).MulRaw(1_000_000_000_000_000_000)),
-	)
+	)...)
 }
+
+// ManyDenoms further denominations v00.. are held by every account (IBC-voucher-like variety).
+const ManyDenoms = 32
 
 // NewChain builds an app on db and initialises it from a generated genesis.
 func NewChain(db dbm.DB, home string, gopts GenesisOptions) (*Chain, error) {
-	a, err := NewAppBinary(db, home, gopts.Previous)
+	a, err := NewAppBinary(db, home, gopts.Previous, gopts.Node)
 	if err != nil {
 		return nil, err
 	}
-	c := &Chain{App: a, DB: db, Home: home, Accounts: gopts.Accounts, AppHashes: map[int64][]byte{}, Previous: gopts.Previous}
+	c := &Chain{App: a, DB: db, Home: home, Accounts: gopts.Accounts, AppHashes: map[int64][]byte{}, Previous: gopts.Previous, Node: gopts.Node}
 	c.ValPriv = ed25519.GenPrivKeyFromSecret([]byte("verif-validator"))
 	gs, err := c.buildGenesis(gopts)
 	if err != nil {
@@ -312,7 +332,7 @@ func (c *Chain) Reopen() error {
 		}
 		c.DB = db
 	}
-	a, err := NewAppBinary(c.DB, c.Home, c.Previous)
+	a, err := NewAppBinary(c.DB, c.Home, c.Previous, c.Node)
 	if err != nil {
 		return err
 	}
